@@ -174,6 +174,7 @@ func init() {
 	add(t("GET.withfields", "GET", FRead, w("GET"), k("fleet"), id("truck1"), w("WITHFIELDS")))
 	add(t("GET.object", "GET", FRead, w("GET"), k("fleet"), id("area1"), w("OBJECT")))
 	add(t("GET.point", "GET", FRead, w("GET"), k("fleet"), id("truck2"), w("WITHFIELDS"), w("POINT")))
+	add(t("GET.point.negz", "GET", FRead, w("GET"), k("fleet"), id("negz"), w("WITHFIELDS"), w("POINT")))
 	add(t("GET.point.featz", "GET", FRead, w("GET"), k("fleet"), id("featz"), w("POINT")))
 	add(t("GET.point.gcz", "GET", FRead, w("GET"), k("fleet"), id("gcz"), w("WITHFIELDS"), w("POINT")))
 	add(t("SCAN.points", "SCAN", FRead, w("SCAN"), k("fleet"), w("POINTS")))
@@ -651,6 +652,7 @@ func StateCommands(name string) [][]string {
 		{"SET", "fleet", "area1", "FIELD", "info", `{"a":[1,2],"b":"c"}`, "OBJECT", PolyJSON},
 		{"SET", "fleet", "feat1", "OBJECT", FeatJSON},
 		{"SET", "fleet", "box1", "BOUNDS", "33.1", "-112.4", "33.2", "-112.3"},
+		{"SET", "fleet", "negz", "FIELD", "speed", "21", "POINT", "33.44", "-112.24", "-42.5"},
 		{"SET", "fleet", "featz", "FIELD", "speed", "33", "OBJECT", `{"type":"Feature","geometry":{"type":"Point","coordinates":[-112.23,33.47,77]},"properties":{"k":"v"}}`},
 		{"SET", "fleet", "gcz", "OBJECT", `{"type":"GeometryCollection","geometries":[{"type":"Point","coordinates":[-112.21,33.48,12.5]}]}`},
 		{"SET", "fleet", "str1", "STRING", "hello"},
